@@ -96,6 +96,9 @@ def build_scores(C, paths, margin, seed):
         sc[n] = top[None, :] - np.float32(margin) - noise
         for t, c in enumerate(p):
             sc[n, c, t] = top[t]
+    if seed % 7 == 0 and margin >= 1.0:
+        # un-normalised network outputs far from zero (a constant per tensor does not change any arg max): +-1500, +4000
+        sc = sc + np.float32(rs.choice([1500.0, -1500.0, 4000.0]))
     # the construction must yield the intended unique arg max (float32)
     am = sc.argmax(axis=1)
     srt = np.sort(sc, axis=1)
